@@ -100,11 +100,18 @@ def api_for(inp, n=0):
     return "kdtree"
 
 
-def replay_emitted(ctx, res, alphabets, classify=default_classify, every=1, thin=None):
-    """spec -> code: every behaviour TLC emitted is executed on the real code (under each concrete alphabet)."""
+def replay_emitted(ctx, res, alphabets, classify=default_classify, every=1, thin=None, budget=None):
+    """spec -> code: every behaviour TLC emitted is executed on the real code (under each concrete alphabet).
+    budget: when TLC emitted more behaviours than this, a seeded uniform sample of that size is replayed (the model check itself
+    is always exhaustive; the evidence records how many behaviours were replayed)."""
     drift_seen = 0
     n = 0
-    for doc in res.printed:
+    docs = [d for d in res.printed if isinstance(d, dict) and "inp" in d]
+    if budget is not None and len(docs) > budget:
+        ctx.note(f"{res.cfg}: {len(docs)} behaviours emitted, seeded sample of {budget} replayed")
+        docs = ctx.rng.sample(docs, budget)
+        ctx.exhaustive_replay = False
+    for doc in docs:
         if not isinstance(doc, dict) or "inp" not in doc:
             continue
         n += 1
